@@ -120,6 +120,10 @@ func workerMain(tier string) int {
 		stage("clone-conc")
 		stageCloneConc(run, p, ids)
 	}
+	if want("resp-merge") {
+		stage("resp-merge")
+		stageRespMerge(run, p, ids)
+	}
 	stage("opid-set")
 	ids.check(run)
 	if want("race") {
